@@ -186,6 +186,28 @@ pub fn aco_line<const N: usize>(pre: &[u8], ri: usize, srw: &ASrw, choices: &str
     true
 }
 
+/// chunk lengths whose boundaries fall right after a CR, right before / after a terminator, at multiples of 8/16, or drip
+pub fn boundary_chunks(data: &[u8], size: usize, rng: &mut Rng) -> Vec<usize> {
+    let mut out = vec![];
+    let mut pos = 0usize;
+    let drip = rng.chance(1, 5);
+    while pos < data.len() {
+        let rest = &data[pos..];
+        let next = |b: u8| rest.iter().position(|x| *x == b);
+        let mut cands: Vec<usize> = vec![1, 7, 8, 9, 16, 17, size.saturating_sub(1).max(1), size.max(1), size + 3];
+        if let Some(i) = next(b'\r') {
+            cands.extend([i + 1, i + 1, i + 2]);
+        }
+        if let Some(i) = next(b'\n') {
+            cands.extend([i.max(1), i + 1, i + 1, i + 2]);
+        }
+        let k = if drip { 1 + rng.below(2) } else { cands[rng.below(cands.len())] }.max(1).min(rest.len());
+        out.push(k);
+        pos += k;
+    }
+    out
+}
+
 fn compositions(n: usize) -> Vec<Vec<usize>> {
     if n == 0 {
         return vec![vec![]];
@@ -215,6 +237,8 @@ pub fn dispatch(n: usize, df: Df, pre: &[u8], ri: usize, srw: &ASrw, choices: &s
         33 => arf_line::<33>(df, pre, ri, srw, choices, maxcalls, w),
         48 => arf_line::<48>(df, pre, ri, srw, choices, maxcalls, w),
         64 => arf_line::<64>(df, pre, ri, srw, choices, maxcalls, w),
+        96 => arf_line::<96>(df, pre, ri, srw, choices, maxcalls, w),
+        128 => arf_line::<128>(df, pre, ri, srw, choices, maxcalls, w),
         _ => false,
     }
 }
@@ -312,7 +336,7 @@ pub fn run(mode: &str, thorough: bool, seed: u64, w: &mut impl std::io::Write) {
     // long frames around the buffer size, chunk sizes around 8 / SIZE, Pending anywhere, random resume / cancel
     let lcases = if thorough { 20000 } else { 2500 };
     for _ in 0..lcases {
-        let size = [16usize, 33, 48, 64][rng.below(4)];
+        let size = [16usize, 33, 48, 64, 96, 128][rng.below(6)];
         let df = [Df::Line, Df::Crlf, Df::Line][rng.below(3)];
         let term: &[u8] = if df == Df::Crlf { b"\r\n" } else { b"\n" };
         let nf = 1 + rng.below(4);
@@ -339,17 +363,32 @@ pub fn run(mode: &str, thorough: bool, seed: u64, w: &mut impl std::io::Write) {
             let cut = rng.below(data.len() + 1);
             data.truncate(cut);
         }
-        let nc = rng.below(12);
-        let racts: Vec<RAct> = (0..nc)
-            .map(|_| if rng.chance(1, 3) { RAct::Pending } else { RAct::Data([1usize, 7, 8, 9, size - 1, size, size + 5, 1000][rng.below(8)], rng.chance(1, 10)) })
-            .collect();
+        let racts: Vec<RAct> = if rng.chance(1, 2) {
+            // boundaries at terminator-relevant places, a Pending after some chunks (more often right after a CR)
+            let mut v = vec![];
+            let mut pos = 0usize;
+            for k in boundary_chunks(&data, size, &mut rng) {
+                v.push(RAct::Data(k, rng.chance(1, 12)));
+                pos += k;
+                let after_cr = pos > 0 && pos <= data.len() && data[pos - 1] == b'\r';
+                if rng.chance(if after_cr { 2 } else { 1 }, 4) {
+                    v.push(RAct::Pending);
+                }
+            }
+            v
+        } else {
+            let nc = rng.below(12);
+            (0..nc)
+                .map(|_| if rng.chance(1, 3) { RAct::Pending } else { RAct::Data([1usize, 7, 8, 9, size - 1, size, size + 5, 1000][rng.below(8)], rng.chance(1, 10)) })
+                .collect()
+        };
         let np = racts.iter().filter(|a| **a == RAct::Pending).count();
         let choices: String = if cancel { (0..np).map(|_| if rng.chance(1, 2) { 'c' } else { 'r' }).collect() } else { String::new() };
         let pl = rng.below(9);
         let pre: Vec<u8> = (0..pl).map(|i| b'p' + i as u8).collect();
         let ri = if pl > 1 { rng.below(pl) } else { 0 };
         let srw = ASrw::new(1, &data, racts);
-        if dispatch(size, df, &pre, ri, &srw, &choices, 40, w) {
+        if dispatch(size, df, &pre, ri, &srw, &choices, 200, w) {
             n += 1;
         }
     }
